@@ -1171,8 +1171,17 @@ func (env *SpecEnv) call(x *SExpr) (*Term, types.Type) {
 					idx = args[1].Name
 				}
 				rname := args[0].Name
-				if args[0].Kind == "sel" && args[0].Args[0].Kind == "id" {
-					rname = args[0].Args[0].Name + "." + args[0].Name
+				if args[0].Kind == "sel" {
+					// p.M or p.f.g.M: the call qualified by its receiver (a parameter or a field chain from one)
+					q := args[0].Name
+					x := args[0].Args[0]
+					for x.Kind == "sel" {
+						q = x.Name + "." + q
+						x = x.Args[0]
+					}
+					if x.Kind == "id" {
+						rname = x.Name + "." + q
+					}
 				}
 				if r, ok := env.e.callResults[rname+"/"+idx]; ok {
 					return r.v, r.t
